@@ -64,7 +64,7 @@ theorem paramLoop_nodup (ps : List Param) (raw : List Tok) : ∀ (qs : List Para
   case case12 e hp => rw [hp] at h; cases h
   case case13 p hp ih => rw [hp] at h; exact ih qs rest (mkParam_cons hnd hp) h
 
-/-- **define rejects a duplicate parameter name** (pp.c after `5e1cf9d`): the parameter loop
+/-- **define rejects a duplicate parameter name** (pp.c after `e1e687a`): the parameter loop
 only ever returns a list whose named parameters are pairwise distinct. -/
 theorem paramLoop_distinct (raw : List Tok) (qs : List Param) (rest : List Tok)
     (h : paramLoop [] raw = .ok (qs, rest)) : NamedNodup qs :=
